@@ -607,6 +607,34 @@ func checkDiagOperands(c *Ctx, r *Report) {
 		}
 		all = append(all, site{w.pos(cl.Pos()), fnk, fr, rg})
 		weighted += w.siteWeight(cl)
+		// the file named is the file the entity's comment was read from (the holder's FileName()):
+		// a path taken from somewhere else (the file version of a type's declaration, say) names
+		// another file than the one the range was measured in
+		// (or the entity's own FVersion.Path next to its own Range - but never the file version
+		// kept in a TypeUsageMeta, which is the file the *type* is declared in)
+		fileOK := false
+		for _, be := range w.boundExprs(fi, call.Args[0], 0) {
+			at := w.exprAtoms(be.Fi, be.Expr)
+			for cn := range at.Calls {
+				if strings.HasSuffix(strings.TrimPrefix(cn, "inlined:"), "core/annotations.AnnotationHolder).FileName") {
+					fileOK = true
+				}
+			}
+			if at.Fields["core/metadata.SymNodeMeta.FVersion"] {
+				viaTypeUsage := false
+				for fld := range at.Fields {
+					if strings.HasSuffix(fld, ".Type") && strings.HasPrefix(fld, "core/metadata.") {
+						viaTypeUsage = true
+					}
+				}
+				if !viaTypeUsage {
+					fileOK = true
+				}
+			}
+		}
+		if !fileOK {
+			viol = fmt.Sprintf("%s: in %s the diagnostic's file is neither an annotation holder's FileName() nor the entity's own FVersion.Path: a path obtained another way (the file version kept with a type usage is the file the type is declared in) can be another file than the one the range lies in", w.pos(cl.Pos()), fnk)
+		}
 		if fr == rg {
 			continue
 		}
@@ -715,10 +743,23 @@ func checkDiagOperands(c *Ctx, r *Report) {
 			for _, cl := range w.callersOf(nameIs(callee)) {
 				n++
 				ss = append(ss, w.pos(cl.Pos()))
-				args := cl.Common().Args
-				ra := stripTrivial(args[1])
-				pa := sliceOf(args[2])
-				okTie := pa.hasFieldNamed("Params") && sliceReaches(args[2], ra)
+				// (by type, not position: the receiver and the parameter operand)
+				var recvArg, paramArg ssa.Value
+				for _, a := range cl.Common().Args[1:] {
+					ts := short(a.Type().String())
+					switch {
+					case strings.HasSuffix(ts, "core/metadata.ReceiverMeta"):
+						recvArg = a
+					case strings.HasSuffix(ts, "core/metadata.FuncParam"):
+						paramArg = a
+					}
+				}
+				if recvArg == nil || paramArg == nil {
+					continue // nothing to tie: where the file then comes from is judged at the constructor call
+				}
+				ra := stripTrivial(recvArg)
+				pa := sliceOf(paramArg)
+				okTie := pa.hasFieldNamed("Params") && sliceReaches(paramArg, ra)
 				if !okTie {
 					v = fmt.Sprintf("%s: %s is called with a parameter that is not an element of the same receiver's Params", w.pos(cl.Pos()), callee)
 				}
